@@ -4,6 +4,7 @@ package m3
 
 import (
 	"sync"
+	"time"
 
 	tally "github.com/uber-go/tally/v4"
 	"github.com/uber-go/tally/v4/internal/verifrt"
@@ -18,6 +19,9 @@ func c14Run(proto Protocol, variant int, preempt int) {
 	queue := 1
 	if variant == 1 {
 		queue = 8 // Flush enqueues six items of its own; the handshake, not a full queue, is the subject here
+	}
+	if variant == 7 {
+		queue = 16 // room for both Flush calls' items: their markers can end up next to each other
 	}
 	r, addr := vLight(proto, queue, 1440, variant == 5)
 	c := r.AllocateCounter("c", map[string]string{"k": "v"})
@@ -62,6 +66,10 @@ func c14Run(proto Protocol, variant int, preempt int) {
 	case 5: // the clock goroutine (one tick) must stop at Close
 		wg.Add(1)
 		go func() { defer wg.Done(); err1 = r.Close(); closes++ }()
+	case 7: // two Flush callers at the same time (each must return; Close afterwards must return)
+		wg.Add(2)
+		go func() { defer wg.Done(); r.Flush() }()
+		go func() { defer wg.Done(); r.Flush() }()
 	case 6: // the destination refuses every datagram while producers keep the one-slot queue full
 		verifrt.SinkFault(addr, true)
 		wg.Add(1)
@@ -69,11 +77,11 @@ func c14Run(proto Protocol, variant int, preempt int) {
 	}
 	wg.Wait()
 	verifrt.StopExplore()
-	if variant == 6 {
+	if variant == 6 || variant == 7 {
 		err1 = r.Close() // after the producer is done; must return although every send failed
 	}
 	switch variant {
-	case 0, 1, 5, 6:
+	case 0, 1, 5, 6, 7:
 		verifrt.Assert("c14.close-returns-nil", err1 == nil)
 	case 2:
 		verifrt.Assert("c14.exactly-one-close-succeeds", (err1 == nil) != (err2 == nil))
@@ -115,5 +123,29 @@ func VerifC14SharedBucket()   { c14Run(Binary, 3, 2) }
 func VerifC14SharedCounter()  { c14Run(Binary, 4, 2) }
 func VerifC14ClockStops()     { c14Run(Compact, 5, 1) }
 func VerifC14SendErrors()     { c14Run(Compact, 6, 1) }
+func VerifC14TwoFlushes()     { c14Run(Compact, 7, 1) }
 func VerifC14ProducerClose3() { c14Run(Binary, 0, 3) }
 func VerifC14FlushClose3()    { c14Run(Binary, 1, 3) }
+
+// VerifC14AfterClose: sequential - after Close every call is a no-op: reports on old handles,
+// Flush, and allocations of every kind, with tag sets the reporter has and has not seen before.
+func VerifC14AfterClose() {
+	r, addr := vLight(Compact, 4, 1440, false)
+	c := r.AllocateCounter("c", map[string]string{"k": "v"})
+	c.ReportCount(1)
+	verifrt.Assert("c14.after-close.close-returns-nil", r.Close() == nil)
+	n := verifrt.SinkDatagrams(addr)
+	c.ReportCount(2)
+	r.Flush()
+	r.AllocateCounter("late", map[string]string{"k": "v"}).ReportCount(1)
+	r.AllocateCounter("late", map[string]string{"z": "1"}).ReportCount(1)
+	r.AllocateGauge("late", map[string]string{"z": "5"}).ReportGauge(1)
+	r.AllocateTimer("late", map[string]string{"z": "2", "y": "3"}).ReportTimer(time.Second)
+	r.AllocateHistogram("late", map[string]string{"z": "4"}, tally.ValueBuckets{1}).ValueBucket(0, 1).ReportSamples(1)
+	r.AllocateHistogram("late", nil, tally.DurationBuckets{time.Second}).DurationBucket(0, time.Second).ReportSamples(1)
+	verifrt.WaitIdle()
+	verifrt.Assert("c14.after-close.calls-after-close-emit-nothing", verifrt.SinkDatagrams(addr) == n)
+	verifrt.Assert("c14.after-close.no-goroutine-left", verifrt.LiveThreads() == 0)
+	verifrt.Assert("c14.after-close.second-close-is-an-error", r.Close() != nil)
+	verifrt.Reach("c14-after-close")
+}
